@@ -281,6 +281,10 @@ def _classify(res, text, meta, js, diags, err, rc):
         if call is None and site_spans:
             call = site_spans[0]
         anchor = _clip(_span_text(call)) if call else ""
+        if call is not None:
+            for raw in d.get("spans", []):
+                if _outer_span(raw) == call and "end of the function body" in (raw.get("label") or ""):
+                    anchor = "end of function body"
         clause = _clip(_span_text(clause_span)) if clause_span else ""
         tags = set()
         if clause_span:
